@@ -792,6 +792,11 @@ func (server *Server) registerCoreExecutors() {
 		opt.MINEXCLUSIVE = minEx
 		opt.MAXEXCLUSIVE = maxEx
 
+		// LIMIT selects from the reverse-ordered range: the handler is asked for the whole range and the
+		// limit is applied after reversing.
+		offset, count := opt.Offset, opt.Count
+		opt.Offset, opt.Count = 0, -1
+
 		msg, err := server.userCommandHandler.ZRangeByScore(conn, key, min, max, opt)
 		if err != nil {
 			return msg, err
@@ -802,10 +807,33 @@ func (server *Server) registerCoreExecutors() {
 			return msg, err
 		}
 
+		step := 1
 		if opt.WITHSCORES {
-			return NewArrayMessageWithArray(array.ReverseBy(2)), nil
+			step = 2
 		}
-		return NewArrayMessageWithArray(array.Reverse()), nil
+		reversed := array.ReverseBy(step)
+		if offset == 0 && count < 0 {
+			return NewArrayMessageWithArray(reversed), nil
+		}
+
+		limited := proto.NewArray()
+		if 0 <= offset {
+			for n := 0; n < reversed.Size(); n++ {
+				elem, err := reversed.Next()
+				if err != nil {
+					break
+				}
+				entry := n / step
+				if entry < offset {
+					continue
+				}
+				if 0 <= count && count <= entry-offset {
+					break
+				}
+				limited.Append(elem)
+			}
+		}
+		return NewArrayMessageWithArray(limited), nil
 	})
 
 	server.RegisterExexutor("ZREM", func(conn *Conn, cmd string, args Arguments) (*Message, error) {
